@@ -67,6 +67,25 @@ Sound(m) == /\ ImplSymbolic(m) => SemSymbolic(m)
 AllSound == \A m \in Models : Sound(m)
 Unsound == {m \in Models : ~Sound(m)}
 
+(* ---- two restricting features in one model, in both declaration orders: the verdict is the conjunction, whichever comes first.
+   (The checker is a visitor that can only clear flags; a short cut taken because one flag is already down must not skip the
+   inspection that would clear another.) *)
+SymReps == {[feat |-> "fpcmp", role |-> "guard", op |-> "lt", order |-> "cv", pos |-> "alone", inst |-> "yes"],
+            [feat |-> "fpcmp", role |-> "invariant", op |-> "le", order |-> "cv", pos |-> "right", inst |-> "full"],
+            [feat |-> "clockinit", where |-> "global", val |-> "fp", inst |-> "yes"],
+            [feat |-> "clockinit", where |-> "local", val |-> "fp", inst |-> "yes"],
+            [feat |-> "fpassign", target |-> "double", idx |-> 1, len |-> 1, inst |-> "yes"],
+            [feat |-> "rate", clock |-> "plain", val |-> 2, order |-> "cv", pos |-> "alone", inst |-> "yes"]}
+StoReps == {[feat |-> "chan", kind |-> "plain", where |-> "local", shape |-> "scalar", inst |-> "yes"],
+            [feat |-> "chan", kind |-> "urgent", where |-> "local", shape |-> "array", inst |-> "full"],
+            [feat |-> "chan", kind |-> "plain", where |-> "global", shape |-> "scalar", inst |-> "yes"]}
+ASSUME SymReps \subseteq Models /\ StoReps \subseteq Models
+Pairs == {[a |-> x, b |-> y, first |-> o] : x \in SymReps, y \in StoReps, o \in {"a", "b"}}
+PairSem(p) == [sym |-> SemSymbolic(p.a) /\ SemSymbolic(p.b), sto |-> SemStochastic(p.a) /\ SemStochastic(p.b), con |-> SemConcrete(p.a) /\ SemConcrete(p.b)]
+PairImpl(p) == [sym |-> ImplSymbolic(p.a) /\ ImplSymbolic(p.b), sto |-> ImplStochastic(p.a) /\ ImplStochastic(p.b), con |-> ImplConcrete(p.a) /\ ImplConcrete(p.b)]
+PairsSound == \A p \in Pairs : (PairImpl(p).sym => PairSem(p).sym) /\ (PairImpl(p).sto => PairSem(p).sto) /\ (PairImpl(p).con => PairSem(p).con)
+ExportPairs(file) == ndJsonSerialize(file, SetToSeq({[p |-> p, sem |-> PairSem(p), impl |-> PairImpl(p)] : p \in Pairs}))
+
 Export(file) == ndJsonSerialize(file, SetToSeq({[m |-> m, sym |-> SemSymbolic(m), sto |-> SemStochastic(m), con |-> SemConcrete(m),
                                                  isym |-> ImplSymbolic(m), isto |-> ImplStochastic(m), icon |-> ImplConcrete(m)] : m \in Models}))
 VARIABLE dummy
